@@ -62,6 +62,7 @@ def mc_cfg(c, props, invs, known):
     s = "SPECIFICATION %s\nCONSTANTS\n" % c["spec"]
     s += "  NodeSeq <- %s\n  TmplSeq <- %s\n  InitFits <- %s\n  Strat <- %s\n" % (c["nodes"], c["tmpls"], c["fits"], c["strat"])
     s += "  EnvBudget = %d\n  EditBudget = %d\n  AnnBudget = %d\n  MaxPerNode = %d\n  AgeCap = %d\n" % (c["env"], c["edit"], c["ann"], c["per_node"], c["agecap"])
+    s += "  EnvKinds = %s\n" % c.get("kinds", plan.ALL_KINDS)
     s += "  KnownFindings = %s\n  Notes = FALSE\nVIEW view\n" % kf
     if invs:
         s += "INVARIANT " + " ".join(invs) + "\n"
@@ -106,6 +107,32 @@ def design_pass(ctx):
         if not exhaustive and not timed_out:
             raise vcheck.MachineryError("TLC design pass %s failed:\n%s" % (name, out[-2000:]))
     ctx.cov["exhaustive"] = all(p.get("exhaustive", True) for p in ctx.cov["passes"] if p["pass"].startswith("design:"))
+
+
+def liveness_pass(ctx):
+    """Design-level liveness: TLC checks the temporal property under weak fairness on a small configuration (no state
+    constraint).  A counterexample in the model is a machinery error, not a verdict; the convicting convergence check is the
+    tail of the real code."""
+    for name in plan.LIVE.get(ctx.pid, {}).get(ctx.tier, []):
+        c, prop = plan.LIVE_CONFIGS[name]
+        cfg = mc_cfg(c, [prop], [], ctx.known_ids)
+        budget = 300 if ctx.tier == "quick" else 1800
+        try:
+            rc, out, dt, d = ctx.tlc(c["module"] + ".tla", cfg, "live-" + name, workers=16, timeout=budget)
+        except vcheck.MachineryError as ex:
+            if "timeout" in str(ex):
+                ctx.cov["passes"].append({"pass": "liveness:" + name, "property": prop, "exhaustive": False, "timed_out": True})
+                continue
+            raise
+        gen, dist = ctx.tlc_stats(out)
+        okl = "Model checking completed. No error has been found." in out
+        ctx.cov["passes"].append({"pass": "liveness:" + name, "property": prop, "states_generated": gen, "distinct_states": dist, "holds": okl, "wall_s": round(dt, 1)})
+        ctx.cov["states"] += dist
+        ctx.cov["transitions"] += gen
+        if not okl:
+            if re.search(r"Temporal property \S+ was violated", out):
+                raise vcheck.MachineryError("the MODEL violates liveness property %s in %s (see %s/live-%s/tlc.out); not a verdict about the code" % (prop, name, ctx.work, name))
+            raise vcheck.MachineryError("TLC liveness pass %s failed:\n%s" % (name, out[-2000:]))
 
 
 def b3_pass(ctx):
@@ -316,6 +343,7 @@ def run_property(ctx):
         ok = b3_pass(ctx)
     if ok:
         design_pass(ctx)
+        liveness_pass(ctx)
     level = {"C11": "fault_enumeration", "C17": "other"}.get(ctx.pid, "model_checking")
     ctx.write_evidence(level, rule=plan.RULES["default"])
     return ok
